@@ -42,6 +42,10 @@ def linear_dynamics(f):
                 self.last_in = None
                 self.last_out = None
 
+            def __reduce__(self):
+                # picklable although the class is defined lazily: rebuilt through the module-level factory
+                return (linear_dynamics, (self.F,))
+
             def propagate(self, initial_time, final_time, initial_state, station_keeping=None, scheduled_events=None, error_flags=None):
                 self.calls += 1
                 self.last_in = np.array(initial_state, dtype=float, copy=True)
